@@ -272,6 +272,13 @@ func (s *Script) Emit(line string) { s.body = append(s.body, line) }
 
 func (s *Script) Pos() int { return len(s.body) }
 
+// Truncate drops the body lines emitted after position pos (declarations made meanwhile stay declared).
+func (s *Script) Truncate(pos int) {
+	if pos >= 0 && pos <= len(s.body) {
+		s.body = s.body[:pos]
+	}
+}
+
 // Fresh declares a fresh constant of the given sort.
 func (s *Script) Fresh(hint, sort string) Term {
 	s.nfresh++
